@@ -6,6 +6,11 @@ COMMON_MODELLED = [
     "reflect outcomes as data (DESIGN §4.4)", "user closures as pure functions",
 ]
 
+C10_LEVEL = ("proof, partial: proof at lock-segment granularity (mutual exclusion, linearizability for every schedule / number of threads / "
+                 "program length, no deadlock, writes under the lock, tied to the source by decide-checked lock-placement facts); word-level data "
+                 "races are not expressible in the model - that clause is carried as known finding K-C10-race, with the race detector "
+                 "(16-goroutine stress, thorough tier) as supporting evidence")
+
 PROPS = {
     "C01": {
         "lean": ["Stackage.Props.C01"],
@@ -61,10 +66,11 @@ PROPS = {
         "lean": ["Stackage.Props.C10"],
         "open": "Stackage Stackage.Stk Stackage.Conc",
         "streams": [{"name": "sched", "quick": 3000, "thorough": 60000}],
-        "level": "proof, partial: proof at lock-segment granularity (mutual exclusion, linearizability for every schedule / number of threads / "
-                 "program length, no deadlock, writes under the lock, tied to the source by decide-checked lock-placement facts); word-level data "
-                 "races are not expressible in the model - that clause is carried as known finding K-C10-race, with the race detector "
-                 "(16-goroutine stress, thorough tier) as supporting evidence",
+        "level": C10_LEVEL,
+        "level_text": C10_LEVEL,
+        "level_note": "Trusted: Lean kernel; axioms propext, Classical.choice, Quot.sound; extractor (lock-placement facts read syntactically: position of "
+                      "lock() relative to the first content read); the scheduler correspondence (bounded enumeration, supporting evidence); sync.Mutex as an "
+                      "atomic acquire/release; a lock segment is atomic - memory-level races are outside the model (known finding K-C10-race)",
         "rule": "deterministic scheduler on the VerifHook lock points: 2-3 goroutines x 1-3 content mutators (quick: 3 x <=2) on mutex-enabled stacks "
                 "of length 0..3, every kind, LIFO/FIFO, capacity none or within 2 of the length, occasional negative/forward index options and nil "
                 "elements; per configuration ALL interleavings at lock-acquisition granularity when there are <= 60 (thorough: <= 2000), else a random "
